@@ -608,6 +608,40 @@ def run_file(sh, fc, heavy=False):
                 compare_values(sh, "dct-values", Md, exps[i], binary, digits,
                                {**case, "name": nm}, tags)
 
+    # ---- named subset read == filtered full read (repeated names all returned) ---------
+    full = lists.get(False) or lists.get(None)
+    if full is not None and not heavy and len(exp_names) >= 2:
+        import numpy as np
+        rsub = core.rng(sh.seed, "C04", "subset", fc["index"])
+        distinct = list(dict.fromkeys(exp_names))
+        k = 1 if rsub.random() < 0.5 else min(2, len(distinct))
+        sub = [distinct[int(j)] for j in rsub.permutation(len(distinct))[:k]]
+        arg = sub[0] if (k == 1 and rsub.random() < 0.5) else list(sub)
+        sh.count("mon:namelist-subset")
+        if len(set(exp_names)) < len(exp_names) and any(exp_names.count(x) > 1 for x in sub):
+            sh.count("cell:namelist-subset-of-repeated-name")
+        try:
+            sn, sm, sf, st = op4.load(fname, namelist=arg, into="list", sparse=False) \
+                if fc["index"] % 2 else op4.OP4().listload(fname, namelist=arg,
+                                                           sparse=False)
+            keep = [i for i, nm in enumerate(exp_names) if nm in sub]
+            fn, fm, ff, ft = full
+            ok = list(sn) == [exp_names[i] for i in keep] and \
+                list(sf) == [ff[i] for i in keep] and list(st) == [ft[i] for i in keep]
+            if ok:
+                for M, i in zip(sm, keep):
+                    W = fm[i].toarray() if sp.issparse(fm[i]) else np.asarray(fm[i])
+                    Mg = M.toarray() if sp.issparse(M) else np.asarray(M)
+                    if Mg.shape != W.shape or Mg.tobytes() != W.astype(Mg.dtype).tobytes():
+                        ok = False
+            if not ok:
+                sh.violation("namelist-subset", case,
+                             {"namelist": arg, "got_names": list(sn),
+                              "want_names": [exp_names[i] for i in keep]}, tags)
+        except Exception as e:
+            sh.violation("exception:read", case, {"exc": repr(e)[:300],
+                                                  "namelist": arg}, tags)
+
     # ---- dir vs load ------------------------------------------------------------------
     sh.count("mon:dir")
     try:
@@ -1128,7 +1162,8 @@ def finalize(agg, tier):
               "values-bin-nonbigmat-dense", "values-bin-nonbigmat-sparse",
               "values-asc-dense-dense", "values-asc-dense-sparse",
               "values-asc-bigmat-dense", "values-asc-bigmat-sparse",
-              "values-asc-nonbigmat-dense", "values-asc-nonbigmat-sparse"):
+              "values-asc-nonbigmat-dense", "values-asc-nonbigmat-sparse",
+              "namelist-subset"):
         if not c.get("mon:" + k):
             why.append(f"monitor {k} never evaluated")
     need = ["bin/auto", "bin/dense", "bin/bigmat", "bin/nonbigmat", "asc/auto", "asc/dense",
@@ -1138,6 +1173,7 @@ def finalize(agg, tier):
             "rows-65535", "rows-65536", "rows-16384", "cutoff-2999", "cutoff-3000",
             "cutoff-3001", "strlimit-16383", "strlimit-16384", "strlimit-8192",
             "family-badnames", "family-dupnames", "family-zerodim",
+            "namelist-subset-of-repeated-name",
             "read-sparse-False", "read-sparse-True", "read-sparse-None", "read-sparse-csc",
             "in-coo", "in-csr", "in-csc", "in-nd-F", "in-nd-strided", "mag-e3", "mag-denorm",
             "mag-extreme", "complex", "real"] + [f"digits{d}" for d in DIGITS] + \
